@@ -20,6 +20,8 @@ RULE = ('SLIM: Hypothesis draws a state-space vector (2..5 cells, 1..4 states ea
         'allowed) on 1..4 boxes per axis in 2-D and 3-D are compared with a numpy.add.at histogram divided by the number of '
         'simulations; the table is passed as int64 / int32 / uint8, C- or Fortran-ordered or as a strided view. Non-trivial: cyclic, unequal cell sizes, an empty reaction list, unequal bond ranks, or (Ulam) repeated '
         'transitions / unsampled boxes.')
+RULE += (' ' + 'Added classes: the homogeneous shortcut on cells of different capacity, long axes and int8 tables for the Ulam operators, rates updated in place between calls.')
+
 ASSUMPTIONS = [
     'oracle: explicit enumeration of global states and reactions (pure Python/NumPy)',
     'at least two cells (the construction has distinct first and last cores)',
